@@ -510,6 +510,11 @@ fn piped_worker(sched: &Arc<Sched>, link: &mut PipedLink<i64, i64>, ops: &[Value
             "panic" => {
                 let msg = op[1].as_str().unwrap().to_string();
                 sched.hi(format!(r#""e":"wpanic","msg":"{}""#, msg));
+                // both payload types that panic!() produces: String (formatted) and &'static str (literal)
+                if msg.bytes().last().map(|b| b % 2 == 1).unwrap_or(false) {
+                    let lit: &'static str = Box::leak(msg.into_boxed_str());
+                    std::panic::panic_any(lit);
+                }
                 std::panic::panic_any(msg);
             }
             other => panic!("harness: unknown piped op {}", other),
@@ -547,10 +552,54 @@ impl MainState {
     }
 }
 
-fn mk_waker(sched: &Arc<Sched>, s: &mut Stakker, w: i64) -> Waker {
+// Programs that handlers run on the main thread, inside poll_wake:
+// waker id -> (on wake, on the final deleted=true call)
+static HPROG: Mutex<Option<HashMap<i64, (Vec<Value>, Vec<Value>)>>> = Mutex::new(None);
+
+fn mk_waker(sched: &Arc<Sched>, sh: &Arc<Shared>, s: &mut Stakker, w: i64) -> Waker {
     let sc = sched.clone();
-    s.waker(move |_s, deleted| {
+    let sh = sh.clone();
+    s.waker(move |s, deleted| {
         sc.hi(format!(r#""e":"handler","w":{},"deleted":{}"#, w, deleted));
+        let prog = HPROG
+            .lock()
+            .unwrap()
+            .as_ref()
+            .and_then(|m| m.get(&w).map(|p| if deleted { p.1.clone() } else { p.0.clone() }))
+            .unwrap_or_default();
+        for a in prog {
+            match a[0].as_str().unwrap() {
+                "drop" => {
+                    let v = a[1].as_i64().unwrap();
+                    let wk = sh.wakers.lock().unwrap().remove(&v);
+                    if let Some(wk) = wk {
+                        sc.hi(format!(r#""e":"wdrop_begin","w":{}"#, v));
+                        drop(wk);
+                        sc.hi(format!(r#""e":"wdrop_end","w":{}"#, v));
+                    } else {
+                        sc.hi(r#""e":"nop""#.to_string());
+                    }
+                }
+                "wake" => {
+                    let v = a[1].as_i64().unwrap();
+                    let wk = sh.wakers.lock().unwrap().remove(&v);
+                    if let Some(wk) = wk {
+                        sc.hi(format!(r#""e":"wake_begin","w":{}"#, v));
+                        wk.wake();
+                        sc.hi(format!(r#""e":"wake_end","w":{}"#, v));
+                        sh.wakers.lock().unwrap().insert(v, wk);
+                    } else {
+                        sc.hi(r#""e":"nop""#.to_string());
+                    }
+                }
+                "poll" => {
+                    sc.hi(r#""e":"poll_begin""#.to_string());
+                    s.poll_wake();
+                    sc.hi(r#""e":"poll_end""#.to_string());
+                }
+                other => panic!("harness: unknown handler action {}", other),
+            }
+        }
     })
 }
 
@@ -602,7 +651,7 @@ fn main_op(sched: &Arc<Sched>, sh: &Arc<Shared>, ms: &mut MainState, op: &Value)
             let w = ms.next_w;
             ms.next_w += 1;
             if let Some(s) = ms.stk.as_mut() {
-                let wk = mk_waker(sched, s, w);
+                let wk = mk_waker(sched, sh, s, w);
                 sched.hi(format!(r#""e":"wcreate","w":{}"#, w));
                 sh.wakers.lock().unwrap().insert(w, wk);
             }
@@ -672,6 +721,16 @@ fn run_case(sched: &Arc<Sched>, case: &Value, idx: usize) {
     }
     NOTIFIED.store(false, Ordering::SeqCst);
     let kind = case["kind"].as_str().unwrap();
+    {
+        let mut hp = HashMap::new();
+        if let Some(m) = case.get("hprog").and_then(|v| v.as_object()) {
+            for (k, v) in m {
+                let get = |f: &str| v.get(f).and_then(|x| x.as_array()).cloned().unwrap_or_default();
+                hp.insert(k.parse::<i64>().unwrap(), (get("wake"), get("final")));
+            }
+        }
+        *HPROG.lock().unwrap() = Some(hp);
+    }
     let sh = Arc::new(Shared {
         wakers: Mutex::new(HashMap::new()),
         channel: Mutex::new(None),
@@ -725,7 +784,7 @@ fn run_case(sched: &Arc<Sched>, case: &Value, idx: usize) {
                     continue;
                 }
                 if want.contains(&next_index) {
-                    let wk = mk_waker(sched, s, next_index);
+                    let wk = mk_waker(sched, &sh, s, next_index);
                     sh.wakers.lock().unwrap().insert(next_index, wk);
                 } else {
                     fillers.push(s.waker(|_, _| {}));
@@ -751,7 +810,7 @@ fn run_case(sched: &Arc<Sched>, case: &Value, idx: usize) {
                 if !ws.is_empty() {
                     let s = ms.stk.as_mut().unwrap();
                     for w in ws.iter() {
-                        let wk = mk_waker(sched, s, *w);
+                        let wk = mk_waker(sched, &sh, s, *w);
                         sh.wakers.lock().unwrap().insert(*w, wk);
                     }
                     sched.hi(format!(r#""e":"setup","wakers":{},"fillers":0"#, serde_json::to_string(&ws).unwrap()));
